@@ -433,8 +433,11 @@ impl ReceiverLink<Target> {
                 .into();
 
             let flow = self.get_link_flow(handle, link_credit, drain, echo, include_properties);
+            // This runs from a `Drop`, usually inside the runtime, where blocking the thread
+            // panics: the flow is sent if the channel has room for it, like the other
+            // best-effort frames of the `Drop` implementations
             writer
-                .blocking_send(LinkFrame::Flow(flow))
+                .try_send(LinkFrame::Flow(flow))
                 .map_err(|_| match self.session_stop_reason.get() {
                     Some(reason) => FlowError::SessionStopped(reason.clone()),
                     None => FlowError::IllegalState, // defensive: no stop reason recorded; failure is link-local
